@@ -101,6 +101,26 @@ def check_contract(ctx, cls):
                f'(unknown cast type, operator table), TypeError/AttributeError (argument shapes SQLAlchemy rejects), RenderError or '
                f'Exception - with fallback enabled these escape instead of returning the tree\'s own SQL',
                file=FILE, line=inside.lineno, witness="get_string(parse_sql('select cast(a as foo) from t'))")
+    # the handler itself must not be able to fail: a partial operation on the caught exception replaces the error it reports
+    for t in tries:
+        for h in t.handlers:
+            if h.name is None:
+                continue
+            for n in ast.walk(h):
+                bad = None
+                if isinstance(n, ast.Subscript) and any(isinstance(x, ast.Name) and x.id == h.name for x in ast.walk(n.value)):
+                    bad = f'`{norm(n)}` (IndexError / KeyError when the exception carries no such item)'
+                elif isinstance(n, ast.Attribute) and isinstance(n.value, ast.Name) and n.value.id == h.name and n.attr not in (
+                        'args', '__class__', '__cause__', '__context__', '__traceback__', 'with_traceback'):
+                    bad = f'`{norm(n)}` (AttributeError: not every exception has `{n.attr}`)'
+                elif isinstance(n, ast.Call) and dotted(n.func) in ('int', 'float', 'next', 'getattr') and any(isinstance(x, ast.Name) and x.id == h.name for x in ast.walk(n)) \
+                        and not (dotted(n.func) == 'getattr' and len(n.args) == 3):
+                    bad = f'`{norm(n)}`'
+                if bad:
+                    ctx.ob('C17.handler-total', f'{enclosing(h)}:{norm(n)[:40]}', False,
+                           f'the except handler of {enclosing(h)} evaluates {bad}: when it fails, that internal error leaves the renderer instead of the fallback / '
+                           f'NotImplementedError', file=FILE, line=n.lineno, witness="get_string(parse_sql('select ? as x from t'), with_failback=False)")
+    ctx.ob('C17.handler-total', 'all', True, '')
     # what leaves when fallback is disabled
     for t in tries:
         for h in t.handlers:
@@ -239,6 +259,13 @@ def check_no_mutation(ctx, cls, tree):
                        f'{name} mutates part of the tree it was given: `{norm(n.value)[:70]}`', file=FILE, line=n.lineno)
     ctx.setcount('write_sites_in_renderer', nw)
     ctx.setcount('renderer_functions', len(fns))
+
+
+def enclosing(n):
+    p = n
+    while p is not None and not isinstance(p, ast.FunctionDef):
+        p = getattr(p, '_parent', None)
+    return p.name if p is not None else '?'
 
 
 def run(ctx):
